@@ -31,6 +31,8 @@ extern int vh_loc_dup_fail, vh_loc_new_fail; /* fail the next dup/new */
 extern long vh_loc_live;          /* locale objects created by json-c and not freed */
 extern long vh_loc_calls;
 extern int vh_loc_used_c;         /* a uselocale(non-NULL) happened */
+extern char vh_loc_log[64];       /* q use(NULL) u use(obj) d/D dup ok/fail n/N new ok/fail f free */
+extern int vh_loc_logn;
 
 /* ---- PRNG ---- */
 uint64_t vh_rand(void);
